@@ -47,3 +47,11 @@ for meth, loc, rem, mine in (("yield_p_o_triples_of_an_s", "_yield_local_p_o_tri
         loops={0: {"invariant": ["%s == old(%s) + 1" % (Q, Q), "self.%s == old(self.%s)" % (mine, mine)]},
                1: {"invariant": ["%s == old(%s) + ite(old(target_node in some(self.%s)), 0, 1)" % (Q, Q, mine)]}},
         props=["C15"], note="query-count lemma: cached <= uncached per request; a repeated request costs nothing with the cache")
+
+# ---- decoding of a SPARQL JSON result cell into the term syntax the local parsers produce ------------------------------------------------
+contract("shexer.io.sparql.query:_add_corners_if_needed", params={"target_elem": Str, "elem_type": Str}, returns=Str,
+    ensures=["implies(elem_type == 'uri' and not target_elem.startswith('<'), result == '<' + target_elem + '>')",
+             "implies(elem_type != 'uri' or target_elem.startswith('<'), result == target_elem)"],
+    raises=[], props=["C15"],
+    note="every cell the endpoint types as IRI - whatever its scheme (http, urn, mailto, tel ...) - is delivered in <...> form, so the remote graph "
+         "classifies it as IRI exactly like the local parser; other cells are passed through untouched")
